@@ -53,7 +53,7 @@ ASSUMPTIONS = [
     "geometry scale, |plate positions|), 5e-6*scale instead when a plate rotation angle (bottom, top or relative) lies "
     "in the open NearZero band (1e-9, 2e-6) where the library's exponential drops the rotation; the relative "
     "transform always to 5e-6*scale (the library computes it through the logarithm and exponential of both plate "
-    "poses), and not at all while a plate's rotation is within 1e-4 of a half turn (open finding C01-near-pi-log; counted)",
+    "poses), and not at all while the bottom, top or relative rotation is within 1e-4 of a half turn (open finding C01-near-pi-log; counted)",
     "a flag counts as a verdict only when the call validated (protect=False); IK/FK(protect=True) return True "
     "unconditionally by documented design ('bypass any safeties') and are not judged",
     "constraint definitions are the library's own: leg lengths inside [leg_ext_min, leg_ext_max]; z of the top origin "
@@ -282,7 +282,7 @@ def check_coherence(model, ob, opname, path):
     # matrix logarithm of both poses and exponentiates again): DESIGN's "5e-6 where a log/exp is involved"; and within
     # NEAR_PI of a half turn that logarithm is the open finding C01-near-pi-log (error ~2.6e-16/(pi-angle)^2): not compared
     rel = O.inv(ob.Tb) @ ob.Tt
-    if any(math.pi - O.angle(T[:3, :3]) < NEAR_PI for T in (ob.Tb, ob.Tt)):
+    if any(math.pi - O.angle(T[:3, :3]) < NEAR_PI for T in (ob.Tb, ob.Tt, rel)):
         return "near-pi"
     d = np.abs(ob.rel - rel).max()
     if d > LOOSE * scale:
@@ -312,7 +312,8 @@ def check_verdict(model, ob, switches, opname, path):
             _fail("valid_but_deflection", opname, path, "verdict valid, joint-deflection limit enabled (%.6g rad), but a leg "
                   "is deflected %.6g rad from its neutral direction (joint %d)"
                   % (model.max_dev, float(np.nanmax(dfl)), int(np.nanargmax(dfl))))
-    if switches[3]:
+    if switches[3] and math.pi - O.angle(rel[:3, :3]) >= NEAR_PI:
+        # (within 1e-4 of a half turn the library's own relative transform is the C01-near-pi-log finding: not judged)
         dg = min(rel[0, 0], rel[1, 1], rel[2, 2])
         if dg <= model.plate_rot_cos - MARGIN - 1e-9:
             _fail("valid_but_tilt", opname, path, "verdict valid, plate-tilt limit enabled, but the relative rotation has a "
@@ -477,7 +478,8 @@ def run_history(case, ctx, collect=None):
         if err is not None:
             path = trace.path()
             if isinstance(err.exc, _Runaway):
-                _fail("returns_timeout", name, path, "step %d: the call did not return: %s" % (k, err.exc))
+                _fail("returns_recursion" if "nested" in str(err.exc) else "returns_timeout", name, path,
+                      "step %d: the call did not return: %s" % (k, err.exc))
             _fail("returns", name, path, "step %d: %s" % (k, err))
         path = trace.path()
         if corrected_at is not None and corrected_at < k:
@@ -494,7 +496,7 @@ def run_history(case, ctx, collect=None):
         if how == "band":
             labels.add("NearZero band tolerance")
         elif how == "near-pi":
-            labels.add("plate within 1e-4 of a half turn: relative transform not compared (C01-near-pi-log)")
+            labels.add("a plate / relative rotation within 1e-4 of a half turn: relative transform not compared (C01-near-pi-log)")
         if verdict is True:
             verdicts += 1
             check_verdict(model, ob, sw, name, path)
@@ -569,10 +571,13 @@ def _u_out(draw, kind):
         u[2] = -draw(G.floats(0.25, 0.97))
     elif kind == "below":
         u[2] = -draw(G.floats(1.05, 2.6))
-    elif kind == "tilt":
-        u[draw(st.sampled_from([3, 4]))] = draw(_SIGN) * draw(G.floats(0.7, 2.6))
-    elif kind == "flip":
-        u[draw(st.sampled_from([3, 4]))] = draw(_SIGN) * draw(G.floats(2.6, 3.1))
+    elif kind in ("tilt", "flip"):
+        # about a plate axis, about the diagonal (where only the zz entry of the relative rotation drops below the
+        # limit first) or about any horizontal axis; just past the 60 deg limit or far past it
+        a = draw(st.one_of(st.sampled_from([0.0, math.pi / 2, math.pi / 4, -math.pi / 4, 3 * math.pi / 4]),
+                           G.floats(-math.pi, math.pi)))
+        th = draw(st.one_of(G.floats(1.05, 1.5), G.floats(0.7, 2.6))) if kind == "tilt" else draw(G.floats(2.6, 3.1))
+        u[3], u[4] = th * math.cos(a), th * math.sin(a)
     elif kind == "twist":
         u[5] = draw(_SIGN) * draw(G.floats(0.7, 3.1))
     elif kind == "lateral":
@@ -735,10 +740,10 @@ def region_short(case, message):
 
 
 CLAUSES = [
-    Clause("correction_then_queries", check, _cases(_short_ops()), 150, 6000, region=region, shrink_quick=False),
-    Clause("history_everyday_calls", check, _cases(_history(_everyday_op(), pairs=False), fk_modes=(1,)), 100, 4000,
+    Clause("correction_then_queries", check, _cases(_short_ops()), 200, 5000, region=region, shrink_quick=False),
+    Clause("history_everyday_calls", check, _cases(_history(_everyday_op(), pairs=False), fk_modes=(1,)), 100, 2400,
            region=region, shrink_quick=False),
-    Clause("history_full_alphabet", check, _cases(_history(_any_op())), 150, 6000, region=region, shrink_quick=False),
+    Clause("history_full_alphabet", check, _cases(_history(_any_op())), 150, 4000, region=region, shrink_quick=False),
 ]
 
 
